@@ -829,7 +829,31 @@ func (pv *prover) effects(z *zone, in ssa.Instruction) {
 		if _, isB := x.Common().Value.(*ssa.Builtin); isB {
 			return
 		}
-		forgetGuarded(nil) // any call may store to a guarded field or release its lock
+		// a call may store to a guarded field (or release its lock): forget what it can reach
+		switch sc := x.Common().StaticCallee(); {
+		case sc == nil || x.Common().IsInvoke():
+			forgetGuarded(nil)
+		case lockOpIs(in):
+			forgetGuarded(nil)
+		case pv.p.inModule(sc):
+			if hasOpaqueCalls(pv.p, sc, 3, map[*ssa.Function]bool{}) {
+				forgetGuarded(nil)
+			} else {
+				for fv := range transFieldRW(pv.p, sc, 3).writes {
+					if _, guarded := pv.guardOf[fv]; guarded {
+						forgetGuarded(fv)
+					}
+				}
+			}
+		default:
+			// library code reaches module state only through function values it is handed
+			for _, a := range x.Common().Args {
+				switch a.Type().Underlying().(type) {
+				case *types.Signature, *types.Interface:
+					forgetGuarded(nil)
+				}
+			}
+		}
 		// variables whose address is handed to the callee, or that some closure captured, may change
 		for _, a := range x.Common().Args {
 			if al, ok := a.(*ssa.Alloc); ok {
@@ -2228,4 +2252,47 @@ func (pv *prover) guardedLoadKey(load *ssa.UnOp, in ssa.Instruction) (string, bo
 		return "", false
 	}
 	return "gf:" + base + "#" + fv.Name(), true
+}
+
+func lockOpIs(in ssa.Instruction) bool {
+	_, ok := lockOpOf(in)
+	return ok
+}
+
+// hasOpaqueCalls: fn or a module callee (to the given depth) makes a call whose target is not a statically known
+// module function or builtin (interface method, function value, library function that is handed a function), takes or
+// releases a lock, or the depth bound is hit: its effect on module state is not known.
+func hasOpaqueCalls(p *Program, fn *ssa.Function, depth int, seen map[*ssa.Function]bool) bool {
+	if seen[fn] {
+		return false
+	}
+	seen[fn] = true
+	for _, f := range WithAnons(fn) {
+		for _, cs := range Calls(f) {
+			cc := cs.Common()
+			if _, isB := cc.Value.(*ssa.Builtin); isB {
+				continue
+			}
+			if _, isLock := lockOpOf(cs.Instr); isLock {
+				continue // a callee pairs its own locks (C16-D2); it does not release the caller's
+			}
+			sc := cc.StaticCallee()
+			if sc == nil || cc.IsInvoke() {
+				return true
+			}
+			if !p.inModule(sc) {
+				for _, a := range cc.Args {
+					switch a.Type().Underlying().(type) {
+					case *types.Signature, *types.Interface:
+						return true
+					}
+				}
+				continue
+			}
+			if depth <= 0 || hasOpaqueCalls(p, sc, depth-1, seen) {
+				return true
+			}
+		}
+	}
+	return false
 }
